@@ -1,0 +1,11 @@
+//go:build verif
+
+// Contracts for package crypto, checked by /verif/govc (comment-only; not part of any normal build).
+
+package crypto
+
+//@ func (*Crypto).Configure
+//@   prop C20
+//@   ensures [strict-needs-explicit-backend] config.Strictmode && old(client.config.Storage) == "" ==> !isNilIface(result)
+//@   call (*Crypto).setupFSBackend #2 requires !config.Strictmode
+//@   ensures [lenient-defaults-to-fs] !config.Strictmode && old(client.config.Storage) == "" ==> did(call (*Crypto).setupFSBackend #2)
